@@ -24,18 +24,29 @@ def _playback_file(crate, module):
     return os.path.join(VERIF, crate, "src", "playback_%s.rs" % module)
 
 
-def run_playback(crate, module, test_src, rustflags=None, release=False, cap_s=900):
-    """Put the generated test in place, run it natively, restore the placeholder."""
+def run_playback(crate, module, tests, rustflags=None, release=False, cap_s=900):
+    """Put the generated tests in place, run them natively, restore the placeholder.
+    `tests`: list of playback test sources. Returns the verdict of the first test that fails
+    natively inside the modelled domain (with "test" = its source), else not_reproduced/error."""
+    if isinstance(tests, str):
+        tests = [tests]
     pf = _playback_file(crate, module)
+    names = []
+    for t in tests:
+        tn = re.search(r"fn (kani_concrete_playback_\w+)\(", t)
+        if not tn:
+            return {"status": "error", "detail": "unrecognised playback test"}
+        names.append(tn.group(1))
     with open(pf, "w") as f:
-        f.write(test_src)
+        f.write("\n".join(tests))
     try:
         env = kani.crate_env(rustflags)
         env["CARGO_TARGET_DIR"] = os.path.join(kani.BUILD, crate + "_playback")
         cmd = ["cargo", "kani", "playback", "-Z", "concrete-playback", "-Z", "stubbing"]
         if release:
             cmd.append("--release")
-        cmd += ["--", "kani_concrete_playback"]
+        # run exactly the generated tests (nothing else in the crate may influence the verdict)
+        cmd += ["--", "kani_concrete_playback", "--test-threads=1"]
         p = subprocess.run(cmd, cwd=os.path.join(VERIF, crate), stdout=subprocess.PIPE,
                            stderr=subprocess.STDOUT, env=env, timeout=cap_s)
         out = p.stdout.decode(errors="replace")
@@ -47,10 +58,24 @@ def run_playback(crate, module, test_src, rustflags=None, release=False, cap_s=9
     m = re.search(r"test result: (\w+)\. (\d+) passed; (\d+) failed", out)
     if not m:
         return {"status": "error", "detail": "playback did not run: " + out[-400:]}
-    if int(m.group(3)) > 0:
-        pm = re.search(r"panicked at ([^\n]*)\n([^\n]*)", out)
-        return {"status": "reproduced", "detail": (pm.group(1) + " " + pm.group(2)) if pm else "test failed natively"}
-    return {"status": "not_reproduced", "detail": "native run of the harness with the solver's values passed"}
+    if int(m.group(2)) + int(m.group(3)) != len(tests):
+        return {"status": "error", "detail": "expected %d playback tests to run, got %s passed / %s failed" % (len(tests), m.group(2), m.group(3))}
+    left_domain = None
+    for name, t in zip(names, tests):
+        rm = re.search(r"test \S*%s \.\.\. (\w+)" % re.escape(name), out)
+        if not rm:
+            return {"status": "error", "detail": "no verdict for playback test " + name}
+        if rm.group(1) != "FAILED":
+            continue
+        pm = re.search(r"thread '\S*%s'[^\n]* panicked at ([^\n]*)\n([^\n]*)" % re.escape(name), out)
+        detail = (pm.group(1) + " " + pm.group(2)) if pm else "test failed natively"
+        if "excluded path" in detail or "assumption" in detail.lower():
+            left_domain = detail
+            continue
+        return {"status": "reproduced", "detail": detail, "test": t, "tests_tried": len(tests)}
+    if left_domain:
+        return {"status": "error", "detail": "native run left the modelled domain: " + left_domain}
+    return {"status": "not_reproduced", "detail": "native run of the harness with the solver's values passed (%d playback tests)" % len(tests)}
 
 
 def confirm(pid, ob, res, tier):
@@ -62,12 +87,14 @@ def confirm(pid, ob, res, tier):
                                   extra_args=ob.get("kani_args", ()))
     if not test:
         return {"status": "error", "detail": "Kani produced no concrete playback"}
+    tests = test[:12]
+    r = run_playback(ob["crate"], _module_of(ob["harness"]), tests, ob.get("rustflags"))
+    test = r.pop("test", tests[0])
     path = os.path.join(REPLAYS, "%s_%s.rs" % (pid, ob["id"].replace("/", "_").replace(".", "_")))
     header = "// replay-of: property=%s obligation=%s crate=%s harness=%s rustflags=%s\n" % (
         pid, ob["id"], ob["crate"], ob["harness"], ob.get("rustflags") or "")
     with open(path, "w") as f:
         f.write(header + test)
-    r = run_playback(ob["crate"], _module_of(ob["harness"]), test, ob.get("rustflags"))
     r["path"] = path
     return r
 
@@ -83,6 +110,7 @@ def replay_file(path):
         return 2
     pid, obid, crate, harness, rf = m.groups()
     r = run_playback(crate, _module_of(harness), src[m.end():], rf.strip() or None)
+    r.pop("test", None)
     print("replay %s %s: %s (%s)" % (pid, obid, r["status"], r.get("detail", "")))
     if r["status"] == "reproduced":
         print("VIOLATION property=%s replay=%s" % (pid, path))
